@@ -57,7 +57,9 @@ RAW = {
     'k': dict(
         macros={'m': ['{'], 'o': ['[', '{'], 's': ['*', '[', '{'], 'f': ['{', '{'], 't': [('{', 'text')],
                 'q': [('{', 'math')], 'z': [], '\\': ['*', '[nopre'], 'v': ['v'], 'r': ['r()'], 'd': ['d<>'],
-                'c': ['t+'], 'M': ['m', 'o', 's']},
+                'c': ['t+'], 'M': ['m', 'o', 's'],
+                # one argument slot with a declared mode followed by slots without (user-defined \annot{text}{..})
+                'A': [('{', 'text'), '{'], 'S': [('{', 'math'), '[', '{']},
         envs={'e': dict(args=['[', '{'], body='nodes'), 'q': dict(args=[], body='math'),
               'p': dict(args=['*'], body='nodes')},
         specials={'~': [], '--': [], '---': [], '&': [], '!': ['{']},
@@ -69,6 +71,12 @@ RAW = {
         envs={'e': dict(args=['e{^_}'], body='nodes')},
         specials={'~': []},
         unknown_macro=True, unknown_env=True),
+    # context databases whose definitions are extended *while parsing* (environment body brings local macros);
+    # built by build_dynamic() in two ways that leave an auto-named category first.  Real parser only.
+    'kdyn': dict(macros={'m': ['{'], 'z': []}, envs={'e': dict(args=['['], body='nodes')}, specials={'~': []},
+                 unknown_macro=True, unknown_env=True),
+    'kdyn2': dict(macros={'m': ['{'], 'z': []}, envs={'e': dict(args=['['], body='nodes')}, specials={'~': []},
+                  unknown_macro=True, unknown_env=True),
     'knounk': dict(
         macros={'m': ['{'], 'o': ['[', '{'], 'z': []},
         envs={'e': dict(args=['[', '{'], body='nodes')},
@@ -113,9 +121,37 @@ def _real_argspec(a):
     return LatexArgumentSpec(parser, parsing_state_delta=delta)
 
 
+def build_dynamic(name):
+    """'kdyn': frozen base .extended_with(environment g);  'kdyn2': add_context_category(None, ..., prepend=True).
+    Environment g defines \\entry{}{} and the specials '!!' locally, for its body only."""
+    from pylatexenc.macrospec import (MacroSpec, EnvironmentSpec, SpecialsSpec, LatexContextDb,
+                                      ParsingStateDeltaExtendLatexContextDb)
+    d = describe(name)
+    base = LatexContextDb()
+    base.add_context_category(
+        'model',
+        macros=[MacroSpec(k, [_real_argspec(a) for a in v]) for k, v in d['macros'].items()],
+        environments=[EnvironmentSpec(k, [_real_argspec(a) for a in v['args']]) for k, v in d['envs'].items()],
+        specials=[SpecialsSpec(k, [_real_argspec(a) for a in v]) for k, v in d['specials'].items()])
+    base.set_unknown_macro_spec(MacroSpec(''))
+    base.set_unknown_environment_spec(EnvironmentSpec(''))
+    g = EnvironmentSpec('g', body_parsing_state_delta=ParsingStateDeltaExtendLatexContextDb(
+        extend_latex_context=dict(macros=[MacroSpec('entry', '{{')], specials=[SpecialsSpec('!!')])))
+    if name == 'kdyn':
+        base.freeze()
+        db = base.extended_with(environments=[g])
+    else:
+        base.add_context_category(None, environments=[g], prepend=True)
+        db = base
+    db.freeze()
+    return db
+
+
 def build(name, alias_spelling=False):
     """Real LatexContextDb for a hand-written model context."""
     from pylatexenc.macrospec import MacroSpec, EnvironmentSpec, SpecialsSpec, LatexContextDb
+    if name in ('kdyn', 'kdyn2'):
+        return build_dynamic(name)
     d = describe(name)
     db = LatexContextDb()
     db.add_context_category(
